@@ -16,6 +16,7 @@ MINT_FILES = ["replay/mint/zz_verif_helpers_test.go", "replay/mint/zz_verif_driv
 CLIENT_FILES = ["replay/client/zz_verif_drivers_test.go"]
 
 WALLET_FILES = ["replay/wallet/zz_verif_drivers_test.go"]
+LIGHTNING_FILES = ["replay/lightning/zz_verif_drivers_test.go"]
 
 DRIVERS = [
     (r"mint\.Mint\)\.(GetMeltQuoteState|settleProofs)$", r"rg:guarantee:.*@lockedorspent", "mint", MINT_FILES, "TestVerifReplay_SwapDuringMelt", None),
@@ -26,6 +27,7 @@ DRIVERS = [
     (r"wallet\.Wallet\)\.swapToSend$", r"callsite:slices\.Sort@sendfee", "wallet", WALLET_FILES, "TestVerifReplay_SendFeeEstimate", {"Amount": 3, "FeePpk": 1000}),
     (r"wallet\.Wallet\)\.getActiveKeyset$", r"post@past|inv-", "wallet", WALLET_FILES, "TestVerifReplay_FeeChangeRewindsCounter", None),
     (r"wallet\.Restore$", r"callsite:storage\.WalletDB\.IncrementKeysetCounter|shape:", "wallet", WALLET_FILES, "TestVerifReplay_RestoreCounter", None),
+    (r"lightning\.CLNClient\)\.CreateInvoice$", r"callsite:|post@|shape:", "mint/lightning", LIGHTNING_FILES, "TestVerifReplay_CLNInvoiceAmountWrap", None),
     (r"nut20\.(VerifyMintQuoteSignature|SignMintQuote)$", r"post@|inv-|callsite:|shape:", "mint", MINT_FILES, "TestVerifReplay_Nut20LockedQuote", None),
     (r"mint\.Mint\)\.MintTokens$", r"post@nut20|callsite:nut20", "mint", MINT_FILES, "TestVerifReplay_Nut20LockedQuote", None),
     (r"mint\.Mint\)\.RequestMintQuote$", r"post@lockstored|post@nolock", "mint", MINT_FILES, "TestVerifReplay_Nut20LockedQuote", None),
